@@ -413,7 +413,7 @@ pub fn run(ctx: &Ctx) -> Report {
     // ---- seeds
     let long_a = "a".repeat(5000);
     let long_u = "é🔑".repeat(20000);
-    let fixed: Vec<(&str, &str)> = vec![("", "empty"), ("a", "ascii"), ("seed with spaces and \"quotes\"", "ascii"), ("-s", "dash"), ("--seed", "dash"),
+    let fixed: Vec<(&str, &str)> = vec![("", "empty"), ("a", "ascii"), ("seed with spaces and \"quotes\"", "ascii"), ("-s", "dash"), ("--seed", "dash"), ("-", "dash"), ("--", "dash"), ("@file", "ascii"), ("~", "ascii"), ("$HOME", "ascii"), ("0", "ascii"), ("null", "ascii"),
         ("clé secrète 🔑", "unicode"), ("日本語のシード", "unicode"), ("\u{feff}bom", "unicode"), ("e\u{301}", "unicode"), ("é", "unicode"),
         (&long_a, "long"), (&long_u, "long"), (" ", "ascii"), ("\n", "ascii"), ("TESTSEED ", "ascii")];
     let mut parents: Vec<(Vec<u8>, &'static str)> = vec![];
